@@ -24,6 +24,7 @@ def _translate(name):
 translate_flags_smh = _translate("FlagsSmh")
 translate_flags_dens = _translate("FlagsDens")
 translate_flags_ord = _translate("FlagsOrd")
+translate_flags_json = _translate("FlagsJson")
 
 
 def _flag(fname, name):
